@@ -11,7 +11,7 @@ from ..cfg import walk_own
 from ..core import PKG, Report
 from ..domain import is_esc
 from .registries import _bind_full, _locals, _own_nodes, callers_of, receiver_classes
-from .c10 import _gen_text, _guard_atoms, _guard_holds, _TplEval, _Walk
+from .c10 import generated_variants
 from .siblings import Path as SimPath
 from .siblings import PathSim, _class_names, _strip, enum_builder_parity, enum_merge_parity, inline_tail_calls
 
@@ -24,7 +24,8 @@ LEVEL = ("structural clauses: semantic facts of each enum builder and of merge_p
          "member table, default converted before registration; subset merge in both directions, value-type compatibility); "
          "every store of a member name (paths of values_from_list simulated for int / str members x duplicate found / not) is preceded by a "
          "duplicate test on the very key that is stored or names an integer member injectively, a found duplicate ends in a "
-         "diagnostic; closed decode (enum construct calls the class, the "
+         "diagnostic; closed decode (enum construct calls the class, the generated decoder of an enum / literal-enum property hands "
+         "every value that is present - not the UNSET marker - to that call on every path, no test of the value itself in between, the "
          "literal check function tests membership and its fall-through raises, the const decoder - the code the macro generates under every "
          "assignment of the template conditions, macro calls followed and `set` variables read as their definitions - raises whenever a "
          "present value differs from the constant), encode is .value / identity in every encoder macro (same reading), str(<member>) only together with a __str__ of the generated class that returns the "
@@ -43,7 +44,9 @@ def run(rep: Report, ctx: Any) -> str:
     _member_names(rep, ctx)
 
     # ---- R14.3 closed decode -----------------------------------------------------------------------------------------
-    rep.rule("R14.3", "decode is closed: Enum(value) / check_<name>(value) with membership test and raising fall-through / const "
+    rep.rule("R14.3", "decode is closed: Enum(value) / check_<name>(value) with membership test and raising fall-through, applied by "
+                      "the generated property decoder to every value that is present (only the test for the UNSET marker decides "
+                      "whether the value is decoded) / const "
                       "comparison that raises under every condition of the template (required and optional property alike); encode is "
                       ".value or identity in every encoder macro of the enum template - an encoder that writes str(<member>) instead "
                       "relies on the generated class, whose __str__ must then return the value")
@@ -151,126 +154,6 @@ def run(rep: Report, ctx: Any) -> str:
     _closed_members_of_unions(rep, jx)
     rep.not_decided.append("behaviour of Enum(value) itself (CPython)")
     return LEVEL
-
-
-# =====================================================================================================================
-# the code a macro generates, laid out as Jinja lays it out
-# =====================================================================================================================
-# c10.generated_variants writes a macro call out in place (`{{ _m(x) | indent(8) }}` reads as the body of _m), but the text filters the
-# call's result goes through are lost on the way: the body of _m arrives at the column it has in _m.  Generated Python is read by its
-# layout, so here the same walk keeps, for every output expression that passes through `indent` / `trim`, the filter chain with the
-# fragments it stands for, and the text of such a group is laid out as Jinja's filters do it.  Writing three lines in place at eight
-# spaces and writing them at column 0 in a macro whose call is indented by eight is the same text.
-_LAYOUT_FILTERS = ("indent", "trim")
-
-
-def _layout_chain(c: Any) -> "list[tuple[str, tuple]]":
-    """the indent / trim filters an output expression passes through, innermost first: [(name, arguments)]; arguments of indent are
-    (width, first, blank), None when a filter's arguments are not constants (its effect is not known)"""
-    from jinja2 import nodes as jn
-
-    chain: list[tuple[str, Any]] = []
-    while isinstance(c, jn.Filter) and c.node is not None:
-        if c.name in _LAYOUT_FILTERS:
-            if c.name == "trim":
-                chain.append(("trim", () if not c.args and not c.kwargs else None))
-            else:
-                vals: dict[str, Any] = {"width": 4, "first": False, "blank": False}
-                ok = c.dyn_args is None and c.dyn_kwargs is None and len(c.args) <= 3
-                for k, a in list(zip(("width", "first", "blank"), c.args)) + [(kw.key, kw.value) for kw in c.kwargs]:
-                    if isinstance(a, jn.Const) and k in vals:
-                        vals[k] = a.value
-                    else:
-                        ok = False
-                chain.append(("indent", (vals["width"], vals["first"], vals["blank"]) if ok else None))
-        c = c.node
-    return chain[::-1]
-
-
-def _lay_out(text: str, chain: "list[tuple[str, Any]]") -> str:
-    for name, args in chain:
-        if args is None:
-            continue
-        if name == "trim":
-            text = text.strip()
-            continue
-        width, first, blank = args
-        ind = width if isinstance(width, str) else " " * int(width)
-        lines = (text + "\n").splitlines()    # jinja2.filters.do_indent
-        if not lines:
-            continue
-        if blank:
-            text = ("\n" + ind).join(lines)
-        else:
-            text = lines[0] + "".join("\n" + (ind + ln if ln else ln) for ln in lines[1:])
-        if first:
-            text = ind + text
-    return text
-
-
-class _LayoutWalk(_Walk):
-    """c10._Walk whose fragments remember the layout filters of the output expressions they were written out for: `fr.c14_wraps` is a
-    tuple (outermost first) of (token of the output expression, its filter chain)"""
-
-    def walk(self, body: list, ti: Any, guards: tuple, gnodes: tuple, loops: tuple, insts: tuple, b: dict, stack: tuple) -> Any:
-        from jinja2 import nodes as jn
-
-        for n in body:
-            if not isinstance(n, jn.Output):
-                yield from super().walk([n], ti, guards, gnodes, loops, insts, b, stack)
-                continue
-            for c in n.nodes:
-                one = jn.Output([c], lineno=n.lineno)
-                chain = _layout_chain(c) if isinstance(c, jn.Filter) else []
-                if not chain:
-                    yield from super().walk([one], ti, guards, gnodes, loops, insts, b, stack)
-                    continue
-                tok = object()
-                for fr in super().walk([one], ti, guards, gnodes, loops, insts, b, stack):
-                    fr.c14_wraps = ((tok, chain),) + getattr(fr, "c14_wraps", ())   # type: ignore[attr-defined]
-                    yield fr
-
-
-def generated_variants(m: Any, ti: Any, jx: Any, role: Any, fixed: "dict[str, bool] | None" = None,
-                       limit: int = 12) -> "list[tuple[dict[str, bool], str]] | None":
-    """c10.generated_variants - the code a macro generates, once per valuation of the template conditions it depends on, macro calls
-    and call blocks followed, `set` variables read as their definitions, `role` naming the placeholders - with the text of every
-    output expression that passes through `indent` / `trim` laid out by these filters (see above).  None: more than `limit`
-    conditions"""
-    frs = list(enumerate(_LayoutWalk(jx, None, True).walk(m.body, ti, (), (), (), (), {}, ())))
-    tev = _TplEval([fr for _, fr in frs])
-    names: list[str] = []
-    for i, fr in frs:
-        for a in _guard_atoms(fr) + (tev.atoms(fr.expr, i) if fr.kind == "expr" else []):
-            if a not in names:
-                names.append(a)
-    fixed = dict(fixed or {})
-    free = [a for a in names if a not in fixed]
-    if len(free) > limit:
-        return None
-
-    def render(items: "list[tuple[tuple, str]]", depth: int) -> str:
-        out, i = [], 0
-        while i < len(items):
-            w, t = items[i]
-            if len(w) <= depth:
-                out.append(t)
-                i += 1
-                continue
-            tok, chain = w[depth]
-            j = i
-            while j < len(items) and len(items[j][0]) > depth and items[j][0][depth][0] is tok:
-                j += 1
-            out.append(_lay_out(render(items[i:j], depth + 1), chain))
-            i = j
-        return "".join(out)
-
-    out = []
-    for env0 in tplq.assignments(free):
-        env = {**env0, **fixed}
-        out.append((env, render([(getattr(fr, "c14_wraps", ()), _gen_text(fr, i, env, tev, role)) for i, fr in frs
-                                 if fr.kind != "set" and _guard_holds(fr, env)], 0)))
-    return out
 
 
 def _check_function_closed(le: Any) -> "tuple[bool, str | None]":
